@@ -65,7 +65,9 @@ reg("C11",
     "for each interesting tick (complete per map) against a brute-force governing index; whole charts "
     "are parsed with sorted, partially sorted and shuffled bodies and a stateful machine grows "
     "sections event by event (the hint used for an event is the history before it); every stored "
-    "timestamp must equal the un-hinted query or the parse must raise ValueError.",
+    "timestamp must equal the un-hinted query or the parse must raise ValueError. A further part parses "
+    "dense charts (an event of every kind on every tick of a window around / behind the last tempo changes, "
+    "mostly over round 'musical' tempo maps with exact half-microsecond times) against the same relation.",
     "The un-hinted query itself is checked against the exact model in C01; here it is the reference.",
     "DESIGN.md section 4, C11")
 
@@ -171,7 +173,8 @@ reg("C10",
     "padding and adversarial values (quotes, '=', field names, whole foreign lines, blanks, non-ASCII, "
     "30-digit integers), through Metadata.from_chart_lines and Chart.from_file; the empty set, full "
     "set and each single field enumerated every run; delete / rewrite / one-line relations check that "
-    "no field's line influences another.",
+    "no field's line influences another. A further part slides the [Song] section character by character "
+    "across multiples of the usual buffer sizes inside a large file (position independence).",
     "Defaults table hard-coded from the documentation in cpverif/model.py; values written quoted.",
     "DESIGN.md section 4, C10")
 
@@ -230,7 +233,8 @@ reg("C17",
     "with sequential parses, selections and 2-4 concurrent parses under a 1 us switch interval or a "
     "line-granular cooperative scheduler driven by a drawn schedule; every result must equal the "
     "parse of the same text alone in a fresh interpreter (two PYTHONHASHSEEDs), repeated parses must "
-    "be ==, and must iterate / render identically (iteration order of instrument_tracks, str(), repr()) under different PYTHONHASHSEEDs. 300 histories quick, 2400 thorough. Schedules are sampled at line granularity only.",
+    "be ==, and must iterate / render identically (iteration order of instrument_tracks, str(), repr()) under different PYTHONHASHSEEDs. 300 histories quick, 2400 thorough. Schedules are sampled at line granularity only. "
+    "Fixed histories add numeric twins, over-long numbers, long tempo maps and clients that release their charts between parses.",
     "Workers are python -S subprocesses; a worker timeout is inconclusive (exit 2), never a violation; "
     "failing histories are reduced greedily instead of with the Hypothesis shrinker.",
     "DESIGN.md section 4, C17")
